@@ -118,11 +118,46 @@ def run(R):
         want = ("le", pq["l2bound"][logn]) if pq["is_short_op"] == "<=" else ("le", pq["l2bound"][logn] - 1)
         R.check(preds == [want], "C16-accept", f"verify::<{N}>", f"accepts exactly when the squared norm is {pq['is_short_op']} {pq['l2bound'][logn]}, the reference's is_short test",
                 f"acceptance comparisons found {preds}; reference: norm {pq['is_short_op']} {pq['l2bound'][logn]}", key=f"accept|{N}")
-        # MSB-first packing in the encoders
+        # MSB-first packing of the public key, idiom-independent: coefficient 0 is given one known 1-bit (position j, all
+        # other bits unknown: a known-bits partition); of the 14 pushes made for it exactly the one at offset 13 - j from the
+        # coefficient's first bit must be known to be 1. With all 14 bits known 0 every push is known 0.
+        okb, whyb, npart = True, "", 0
         pkto = S.find(f"falcon::PublicKey::<{N}>::to_bytes")
-        seq = shift_amounts(S, pkto, lambda st: [S.cell(st, "self", c05.encoder_values(S, st, "PublicKey", N))])
-        R.check(len(seq) == 14 * N and seq[:14] == list(range(13, -1, -1)), "C16-bitorder", f"{site} PublicKey::to_bytes", "each coefficient is written as 14 bits, most significant first",
-                f"bit positions written for the first coefficient: {seq[:14]}", key=f"pkbits|{N}")
+        u32 = S.ty("u32")
+        for j in list(range(14)) + [None]:
+            pushes = []
+
+            def obsp(ev, **kw):
+                if ev == "enter" and not ctx.quiet and kw["callee"].name.startswith("bit_vec::BitVec") and kw["callee"].name.endswith("::push"):
+                    a_ = kw["args"]
+                    try:
+                        bv = S.E.load(kw["st"], a_[0].key, a_[0].proj)
+                        pushes.append((kw["st"].const(bv.d["len"]), kw["st"].itv[a_[1].vid]))
+                    except Exception:
+                        pushes.append((None, None))
+            ctx.observers.append(obsp)
+            stp = St()
+            x0 = ctx.mk_int(stp, (1 << j) if j is not None else 0, (1 << 14) - 1 if j is not None else 0, u32, taint=True)
+            if j is not None:
+                stp.prov[x0.vid] = ("kbits", (), (1 << j, 1 << j))
+            x1 = ctx.mk_int(stp, 0, Q - 1, u32, taint=True)
+            hpoly = Ag((Sq(Ag((ctx.mk_int(stp, 0, Q - 1, u32, taint=True),)), ctx.const_int(stp, 2, ctx.usize_ty()), {0: Ag((x0,)), 1: Ag((x1,))}),))
+            S.run(pkto, [S.cell(stp, "self", Ag((hpoly,)))], stp)
+            ctx.observers.remove(obsp)
+            npart += 1
+            first = [p_ for p_ in pushes if p_[0] is not None and 8 <= p_[0] < 22]
+            if len(pushes) != 28 or len(first) != 14 or [p_[0] for p_ in first] != list(range(8, 22)):
+                okb, whyb = False, f"expected 14 bits per coefficient appended after the header byte; saw {len(pushes)} pushes at positions {[p_[0] for p_ in pushes][:16]}"
+                break
+            ones = [p_[0] - 8 for p_ in first if p_[1] == (1, 1)]
+            zeros = [p_[0] - 8 for p_ in first if p_[1] == (0, 0)]
+            if j is None:
+                if len(zeros) != 14:
+                    okb, whyb = False, "an all-zero coefficient does not produce 14 zero bits"
+            elif ones != [13 - j]:
+                okb, whyb = False, f"bit {j} of a coefficient is written at offset(s) {ones} of its 14-bit field, expected {13 - j} (most significant bit first)"
+                break
+        R.check(okb, "C16-bitorder", f"{site} PublicKey::to_bytes", f"each coefficient is written as 14 bits, most significant first ({npart} known-bits partitions)", whyb, key=f"pkbits|{N}")
     # hash threshold, tables
     pq = pqclean(512)
     R.check(pq["hash_reject"] == HASH_REJECT, "C16-hash", "PQClean hash_to_point", f"reference rejects 16-bit samples >= {pq['hash_reject']}", key="hashpq")
